@@ -108,7 +108,7 @@ PROPS = {
         "trusted_base": [MODEL_FILES],
     },
     "C20": {
-        "suites": "ZERO,KAC,STRUCT,DATA,MAP",
+        "suites": "ZERO,KAC,STRUCT,DATA,MAP,C20P",
         "gen": True,
         "assumptions": COMMON_ASSUME + [
             "the zero-value half is complete (finite domain enumerated by reflection on every run); the failed-parse half is explored by the generated truncations/mutations, not proved",
